@@ -224,6 +224,8 @@ def _enc_value(v):
         return "N"
     if isinstance(v, int):
         return "I%d" % v
+    if isinstance(v, (bytes, bytearray, memoryview)):
+        return "X" + (",".join(str(b) for b in bytes(v)) or "-")
     return "T" + enc_str(v)
 
 
@@ -369,6 +371,8 @@ def _dec_value(t):
         return None
     if t[0] == "I":
         return int(t[1:])
+    if t[0] == "X":
+        return b"" if t == "X-" else bytes(int(x) for x in t[1:].split(","))
     assert t[0] == "T"
     return dec_str(t[1:])
 
@@ -476,11 +480,18 @@ _BAD_OPS = [None, 5, 2.5, ("=",)]
 _BAD_SHAPES = [(), ("a",), ("a", "=", 1, 2), 7, {"a": 1}, 3.5, ("a", "=", 1, None, None)]
 
 
+def _py_bytes(b, v):
+    """a BLOB value as the caller may hold it: bytes, bytearray or memoryview"""
+    k = (v + len(b)) % 3
+    return b if k == 0 else (bytearray(b) if k == 1 else memoryview(b))
+
+
 def _py_arg(a, v):
     if a[0] == "S":
-        return a[1]
+        return _py_bytes(a[1], v) if isinstance(a[1], bytes) else a[1]
     if a[0] == "L":
-        return tuple(a[1]) if (v >> 3) & 1 else list(a[1])
+        vals = [_py_bytes(x, v) if isinstance(x, bytes) else x for x in a[1]]
+        return tuple(vals) if (v >> 3) & 1 else vals
     s = set(a[1])
     return s if list(s) == list(a[1]) else _OSet(a[1])
 
@@ -708,7 +719,7 @@ def _run_line(cmd, s, cache=None):
             mark = "%" if s["pct"] else "?"   # the caller's own texts carry none
             n = "-" if any(mark in t for t in caller_texts(s)) else str(sql.count(mark))
             return "ok %s %s" % (n, enc_str(sql))
-        return " ".join(["ok"] + [_enc_value(p) if p is None or isinstance(p, (int, str)) and not isinstance(p, bool)
+        return " ".join(["ok"] + [_enc_value(p) if _is_scalar(p)
                                   else "X" + type(p).__name__ for p in params])
     if res is None:
         return "ok none"
@@ -736,7 +747,7 @@ _CMP = ("=", "!=", "<", ">", "<=", ">=")
 
 
 def _is_scalar(v):
-    return v is None or (isinstance(v, (int, str)) and not isinstance(v, bool))
+    return v is None or (isinstance(v, (int, str, bytes, bytearray, memoryview)) and not isinstance(v, bool))
 
 
 def _leaf_ok(op, a):
@@ -800,12 +811,21 @@ def _scen_ok(s):
     return _call_ok(call) and (c is None or c[0] == "S" or c[1] is None)
 
 
+def _norm_blob(v):
+    return bytes(v) if isinstance(v, (bytearray, memoryview)) else v
+
+
+def _storage_class(v):
+    return 2 if isinstance(v, str) else (3 if isinstance(v, bytes) else 1)
+
+
 def _sql_cmp(op, x, y):
     if x is None or y is None:
         return None
-    tx, ty = isinstance(x, str), isinstance(y, str)
+    x, y = _norm_blob(x), _norm_blob(y)
+    tx, ty = _storage_class(x), _storage_class(y)
     if tx != ty:
-        lt = ty                                    # numbers sort before texts
+        lt = tx < ty                               # numbers sort before texts, texts before blobs
         eq = False
     else:
         lt, eq = x < y, x == y
@@ -860,6 +880,9 @@ def _leaf_val(row, f, op, a):
         return x is None
     if op == "IS NOT NULL":
         return x is not None
+    if isinstance(x, (bytes, bytearray, memoryview)):
+        r = False                  # SQLite built with LIKE_DOESNT_MATCH_BLOBS: a BLOB never matches
+        return r if op == "LIKE" else not r
     if x is None:
         return None
     r = _like(val, x if isinstance(x, str) else str(x))
@@ -891,7 +914,7 @@ def _selected(s):
         def key(col):
             def f(r):
                 v = r[col]
-                return (0, 0) if v is None else ((2, v) if isinstance(v, str) else (1, v))
+                return (0, 0) if v is None else (_storage_class(v), v)
             return f
         for col, desc in reversed(order):
             out.sort(key=key(col), reverse=desc)
@@ -938,6 +961,7 @@ def _call_bindings(call):
 def _same_values(bindings, params):
     """the bound values are exactly the caller's values (as a multiset; the order is checked by _aligned)"""
     def key(v):
+        v = _norm_blob(v)
         return (type(v).__name__, repr(v))
     return sorted(key(v) for _, _, v in bindings) == sorted(key(v) for v in params)
 
@@ -962,6 +986,7 @@ def _aligned(sql, ph, bindings, params):
     if len(slots) != len(params):
         return "%d placeholder(s) read in the text, %d value(s) bound" % (len(slots), len(params))
     for k, (slot, v) in enumerate(zip(slots, params)):
+        v = _norm_blob(v)
         if slot not in where.get((type(v).__name__, v), ()):
             return "placeholder %d stands behind %r but is bound to the value given for %r" % (
                 k + 1, slot, where.get((type(v).__name__, v)))
@@ -1024,6 +1049,8 @@ def _mark_call(call):
         if v is None:
             return None
         n[0] += 1
+        if isinstance(v, (bytes, bytearray, memoryview)):
+            return b"~#mk%d#~" % n[0]
         return 7700000 + n[0] if isinstance(v, int) else "~#mk%d'\";--#~" % n[0]
 
     def ma(a):
@@ -1130,10 +1157,29 @@ _PREFIXES = ["", "", "", "", "t.", "t.", "x.", '"x?".', '"y%%".', '"z%s".']
 _BIG_SIZES = [10, 999, 1000, 1001, 2500]
 
 
+def where_select_texts(pfx, names):
+    """hand-written select parts that contain the word WHERE (sub-selects in FROM / JOIN / the column list, a
+    literal) and still deliver exactly the rows and columns of t"""
+    cols = ", ".join(pfx + n for n in ["id"] + names)
+    plain = ", ".join(["id"] + names)
+    last = names[-1]
+    return [
+        "SELECT %s FROM (SELECT %s FROM t WHERE id >= 0) AS t" % (cols, plain),
+        "SELECT %s FROM t LEFT JOIN (SELECT id AS jid FROM t WHERE id < 0) AS j ON j.jid = t.id" % cols,
+        "SELECT %s, (SELECT z.%s FROM t AS z WHERE z.id = t.id) AS %s FROM t" % (
+            ", ".join(pfx + n for n in ["id"] + names[:-1]), last, last),
+        "SELECT %s FROM t LEFT JOIN (SELECT 'no where clause' AS w) AS j ON j.w IS NOT NULL" % cols,
+        "SELECT %s FROM t JOIN (SELECT 1 AS one WHERE 1) AS j" % cols,
+        "select %s from (select * from t where id in (select id from t where 1 = 1)) as t" % cols,
+    ]
+
+
 def _from_text(rng, pfx, names):
     cols = ", ".join(pfx + n for n in ["id"] + names)
     if pfx not in ("", "t."):
         return "SELECT %s FROM t%s" % (cols, _alias_of(pfx))
+    if rng is not None and rng.random() < 0.15:
+        return rng.choice(where_select_texts(pfx, names))
     r = rng.random() if rng is not None else 1.0
     if r < 0.15:
         return "SELECT * FROM t"
@@ -1188,10 +1234,15 @@ def kw_texts():
     return _KW_TEXTS
 
 
+_BLOBS = [b"", b"ab", b"a", b"\x00", b"\xff\xfe", b"abc", b"ab\x00", b"0", b"b"]
+
+
 def _g_value(rng, field, allow_none=True):
     r = rng.random()
     if allow_none and r < 0.12:
         return None
+    if _CTX.get("blobs") and 0.12 <= r < 0.34:
+        return rng.choice(_BLOBS)
     if r > 0.9:
         return rng.choice(kw_texts())
     pool = _CTX["pool"].get(field)
@@ -1390,6 +1441,7 @@ def _g_scenario(rng, tier, malformed, big=0):
     names = list(names)
     pfx = rng.choice(_PREFIXES)
     # a lone % in the caller's texts: only for the ? style (a %s-style caller writes %%)
+    _CTX["blobs"] = rng.random() < 0.2          # bytes / bytearray / memoryview values and BLOB cells
     _CTX["percent_ok"] = kind == "marks-percent" or pfx == '"z%s".' or rng.random() < 0.3
     fields = [pfx + n for n in names]
     _CTX.update(fields=fields, intcol=fields[0], pool={}, names=names)
@@ -1630,6 +1682,54 @@ def _marks_scenarios():
                         yield _mk_case(s, "marks-in-caller-text")
 
 
+def _where_select_scenarios():
+    """the word WHERE inside the hand-written select part, with 0, 1, 2 filters of every kind"""
+    rows = [[0, 1, "x", None], [1, 2, "x", "y"], [2, None, "", "y"], [3, 1, None, "where"]]
+    calls = [{"args": [], "kw": []}, {"args": [("T", "a", "=", ("S", 1))], "kw": []}, {"args": [], "kw": [("b", ("S", "x"))]},
+             {"args": [("T", "a", "IN", ("L", []))], "kw": []}, {"args": [("O", [("T", "a", "=", ("S", 2))], [("c", ("S", "where"))])], "kw": []},
+             {"args": [None, ("T", "c", "LIKE", ("S", "WHERE")), ("R", "a = 1")], "kw": [("a", ("L", [1, 2]))]},
+             {"args": [("T", "c", "IS NULL", ("S", None))], "kw": [("b", ("S", "x"))]}]
+    k = 0
+    for pfx in ("", "t."):
+        for frm in where_select_texts(pfx, ["a", "b", "c"]):
+            for call in calls:
+                k += 1
+                call2 = _rename_prefix(call, pfx)
+                yield mk_scenario(call2, rows, pfx=pfx, v=(k * 53) % 1024, dorder=[None, [(pfx + "id", True)]][k % 2],
+                                  **{"from": frm})
+
+
+def _rename_prefix(call, pfx):
+    def rc(c):
+        if c is None:
+            return c
+        if c[0] == "T":
+            return ("T", pfx + c[1], c[2], c[3])
+        if c[0] == "P":
+            return ("P", pfx + c[1], c[2])
+        if c[0] == "R":
+            return ("R", pfx + c[1])
+        return ("O", [rc(x) for x in c[1]], [(pfx + k, a) for k, a in c[2]])
+    return {"args": [rc(c) for c in call["args"]], "kw": [(pfx + k, a) for k, a in call["kw"]]}
+
+
+def _blob_scenarios():
+    """bytes-like values (one BLOB each, also the empty one) in every form of a condition, on rows with BLOB cells"""
+    rows = [[0, b"ab", b"", None], [1, 97, "ab", b"ab"], [2, b"", b"\x00", 98], [3, None, b"ab", b""], [4, 98, "", "ab"]]
+    k = 0
+    for val in (b"ab", b"", b"\x00", b"a"):
+        for call in ({"args": [("T", "a", "=", ("S", val))], "kw": []}, {"args": [("T", "b", "!=", ("S", val))], "kw": []},
+                     {"args": [("P", "c", ("S", val))], "kw": []}, {"args": [], "kw": [("a", ("S", val))]},
+                     {"args": [("O", [("P", "a", ("S", val))], [("b", ("S", val))])], "kw": []},
+                     {"args": [("T", "a", "IN", ("L", [val, 97, None]))], "kw": []},
+                     {"args": [("T", "b", "NOT IN", ("Z", [val]))], "kw": [("c", ("S", None))]},
+                     {"args": [("T", "a", "<", ("S", val))], "kw": []}, {"args": [("T", "c", ">=", ("S", val)), None], "kw": []},
+                     {"args": [("T", "a", "=", ("L", [val, val]))], "kw": [("b", ("L", [val]))]}):
+            for dorder in (None, [("a", False), ("id", True)]):
+                k += 1
+                yield mk_scenario(call, rows, v=(k * 67) % 1024, dorder=dorder)
+
+
 def _long_list_scenarios(rng, sizes, per_size):
     for n in sizes:
         for _ in range(per_size):
@@ -1641,6 +1741,10 @@ def gen_cases(rng, tier):
         yield _mk_case(s, "fixed-shapes")
     yield from _entry_point_scenarios()
     yield from _marks_scenarios()
+    for s in _where_select_scenarios():
+        yield _mk_case(s, "where-in-select-text", rng)
+    for s in _blob_scenarios():
+        yield _mk_case(s, "blob-values", rng)
     for s in _static_scenarios():
         yield _mk_case(s, "static-conditions", rng)
     for i, s in enumerate(_keywordish_scenarios()):
@@ -1704,6 +1808,10 @@ def search_cases(rng, tier):
                                        v=rng.randrange(1024)), "search-long-list")
     for s in list(_fixed_scenarios())[-400:]:
         yield _mk_case(s, "search-names")
+    for s in _blob_scenarios():
+        yield _mk_case(s, "blob-values")
+    for s in _where_select_scenarios():
+        yield _mk_case(s, "where-in-select-text")
     yield from _marks_scenarios()
     yield from _entry_point_scenarios()
     for s in _static_scenarios():
@@ -1860,7 +1968,11 @@ def tags(case, replies):
     yield "as_scalars:" + ("absent" if s["scal"] is None else str(s["scal"]))
     if s["group"]:
         yield "group-by"
+    if " X" in case["lines"][0] or any(" X" in l for l in case["lines"]):
+        yield "blob-values-or-cells"
     texts = caller_texts(s)
+    if "WHERE" in s["from"].upper():
+        yield "select-text-with-WHERE"
     if any("?" in t for t in texts):
         yield "caller-text-with-?:%s-style" % ("%s" if s["pct"] else "?")
     if any("%" in t for t in texts):
@@ -1925,7 +2037,8 @@ TRUSTED = ["sqlite3 / SQLite 3.40.1 (evaluation of the generated statement; refu
            "str.upper on ASCII operator names", "CPython set iteration order (PYTHONHASHSEED=0 set by ./check)"]
 ASSUMPTIONS = ["SQLite evaluates the text render(w) as the model's semW says and orders rows as the model's rowBefore says "
                "(modelled, not verified; exercised by every ids line on a real in-memory database)",
-               "columns without type affinity; values are None, int (64 bit) or str without NUL; operator names are ASCII; "
+               "columns without type affinity; values are None, int (64 bit), str without NUL or bytes/bytearray/memoryview (one BLOB; "
+               "LIKE never matches a BLOB: this SQLite is built with LIKE_DOESNT_MATCH_BLOBS); operator names are ASCII; "
                "column expressions are what the caller would write in SQL (a keyword as column name is written quoted)",
                "the caller's own texts contain no placeholder character: decidable predicate `clean`, evaluated by the driver on "
                "every request (hypothesis of C15.placeholders; never false on generated input)",
